@@ -2,7 +2,12 @@
 //! with different scales and large means, rank-deficient data, repeated eigenvalues, both
 //! m > p and m <= p), fits the real `PCA` (covariance and correlation mode) and truncated `SVD`
 //! for every admissible number of components, and records components and transforms as
-//! fixed-point integers at several scales.  No property logic: every verdict (including the
+//! fixed-point integers at several scales.  Offset family: PCA is invariant under a common
+//! per-column offset (components, variances and the centred transform do not change), so a
+//! share of the data sets is fed to the library as `X + off` with large exactly representable
+//! offsets (2^20..2^30 times a small odd factor, |mean| / sd up to 1e9) while the event keeps
+//! the small integers `X` and records `off` separately; the specification evaluates every
+//! clause on the small integers.  No property logic: every verdict (including the
 //! choice of the scale that is safe for 32-bit arithmetic) is taken by spec/decomp/Pca.tla.
 use rand::rngs::StdRng;
 use rand::Rng;
@@ -39,9 +44,15 @@ struct PcaOut {
 
 /// fit with k components; transform the training matrix, the stacked query rows, and the two
 /// halves of the query rows separately
-fn pca_fit(x: &[Vec<i64>], z: &[Vec<i64>], k: usize, corr: bool) -> Result<Result<PcaOut, ()>, String> {
-    let xm = dm(x);
-    let zm = dm(z);
+fn shifted(x: &[Vec<i64>], off: &[i64]) -> Vec<Vec<i64>> {
+    x.iter().map(|r| r.iter().zip(off.iter()).map(|(v, o)| v + o).collect()).collect()
+}
+
+fn pca_fit(x: &[Vec<i64>], z: &[Vec<i64>], off: &[i64], k: usize, corr: bool) -> Result<Result<PcaOut, ()>, String> {
+    let x = shifted(x, off);
+    let z = shifted(z, off);
+    let xm = dm(&x);
+    let zm = dm(&z);
     let z1 = dm(&z[..z.len() / 2 + 1]);
     let z2 = dm(&z[z.len() / 2 + 1..]);
     guard(move || {
@@ -200,20 +211,32 @@ fn gen(path: &str) {
         let fam = FAMS[rng.gen_range(0..FAMS.len())];
         let x = gen_x(&mut rng, m, p, fam, big);
         let z = gen_z(&mut rng, &x);
-        let famtag = format!("{}{}", fam, if wide { "/wide" } else { "" });
+        // offset family (every other data set, so that it meets both shapes and both modes)
+        let off: Vec<i64> = if d % 2 == 1 {
+            (0..p)
+                .map(|_| {
+                    let e: u32 = rng.gen_range(20..=30);
+                    let f: i64 = [1, 3, 5, 7][rng.gen_range(0..4)];
+                    (f << e) * if rng.gen_bool(0.5) { 1 } else { -1 }
+                })
+                .collect()
+        } else {
+            vec![0; p]
+        };
+        let famtag = format!("{}{}{}", fam, if wide { "/wide" } else { "" }, if d % 2 == 1 { "/offset" } else { "" });
         // ---- PCA, both modes, every k
         for &corr in &[false, true] {
             if corr && has_constant_column(&x) {
                 continue; // standardisation undefined: outside the statement
             }
-            let full = pca_fit(&x, &z, p, corr);
+            let full = pca_fit(&x, &z, &off, p, corr);
             let yf: Vec<Vec<f64>> = match &full {
                 Ok(Ok(o)) => o.y.clone(),
                 _ => vec![],
             };
             for k in 1..=p {
                 run += 1;
-                let r = if k == p { pca_fit(&x, &z, p, corr) } else { pca_fit(&x, &z, k, corr) };
+                let r = pca_fit(&x, &z, &off, k, corr);
                 let st = status_of(&r);
                 bump(format!("pca-{}", st));
                 let (fin, q) = match &r {
@@ -224,7 +247,7 @@ fn gen(path: &str) {
                     _ => (false, vec![]),
                 };
                 out.emit(json!({"run": run, "ev": "Pca", "fam": famtag, "mode": if corr {"corr"} else {"cov"}, "m": m, "p": p, "k": k,
-                    "X": x, "Z": z, "status": st, "fin": fin, "q": q}));
+                    "X": x, "Z": z, "off": off, "status": st, "fin": fin, "q": q}));
             }
         }
         // ---- truncated SVD, every k <= p (k = p must be rejected).  No centring here, so the
@@ -251,7 +274,7 @@ fn gen(path: &str) {
                 _ => (false, vec![]),
             };
             out.emit(json!({"run": run, "ev": "Tsvd", "fam": famtag, "m": m, "p": p, "k": k,
-                "X": x, "Z": z, "status": st, "fin": fin, "q": q}));
+                "X": x, "Z": z, "off": vec![0i64; p], "status": st, "fin": fin, "q": q}));
         }
     }
     let n = out.finish();
@@ -267,12 +290,13 @@ fn replay_file(input: &str, path: &str) {
         let z: Vec<Vec<i64>> = serde_json::from_value(e["Z"].clone()).unwrap();
         let k = e["k"].as_u64().unwrap() as usize;
         let p = x[0].len();
+        let off: Vec<i64> = serde_json::from_value(e["off"].clone()).unwrap_or(vec![0; p]);
         let mut o = e.clone();
         if e["ev"] == "Pca" {
             let corr = e["mode"] == "corr";
-            let full = pca_fit(&x, &z, p, corr);
+            let full = pca_fit(&x, &z, &off, p, corr);
             let yf: Vec<Vec<f64>> = match &full { Ok(Ok(o)) => o.y.clone(), _ => vec![] };
-            let r = pca_fit(&x, &z, k, corr);
+            let r = pca_fit(&x, &z, &off, k, corr);
             o["status"] = json!(status_of(&r));
             match &r {
                 Ok(Ok(f)) => {
